@@ -48,7 +48,9 @@ PROP = dict(
     ],
     assumptions=[
         "sources are drawn from the modelled fragment: lambda core, tuples, //name, import syntax (local files), macros whose "
-        "transform is closed, //eval.value, //eval.eval, //eval.evaluator; arrays, sets, operators, patterns are not generated",
+        "transform is closed, //eval.value, //eval.eval, //eval.evaluator, dynamic variables @{x}; arrays, sets, operators, "
+        "patterns are not generated; about 7% of the drawn programs are re-drawn because the model does not determine their "
+        "outcome (calling a string, a library function on arguments it may reject)",
         "configurations are tuples of members of the full library and small closures; errors and panics are both observed as `fail` "
         "(//eval.value panics on a failing source; C10 covers panics)",
         "network and command functions are obtained but never called (programs whose model run would call them are re-drawn); "
@@ -60,7 +62,10 @@ PROP = dict(
                "result of sandboxed evaluation reaches, and its evaluation exercises, only capabilities the configuration handed over "
                "(invariant preserved by every rule); `//x` outside the given library fails; import syntax is rejected; the safe library "
                "table reaches no file-reading, network or command capability (decide over the table); each of the repairs is shown "
-               "necessary by a concrete escaping program in the model with that repair switched off. Tables are tied to /repo by facts "
+               "necessary by a concrete escaping program in the model with that repair switched off. Partial for one route left "
+               "open in the tree (KF-dynvar-leak: the caller's dynamic variables @{x} cross the sandbox boundary): confinement is "
+               "proved for every calling context whose dynamic variables are within bounds, shown false without that hypothesis, "
+               "and proved at full strength for the specification semantics. Tables are tied to /repo by facts "
                "regenerated on every run (library paths, wrapper scripts, every evaluation/scope-reset/effect call site) and the model "
                "to the code by running generated escape attempts through both entry points.",
     design_ref="DESIGN.md section 6, C18",
@@ -69,7 +74,8 @@ PROP = dict(
            "syntax.ParseContext.Parse", "syntax.baseScope", "syntax.withSandbox", "syntax.isSandboxed", "syntax.withStdlibInEffect",
            "syntax.createFunc2", "syntax.SafeStdScopeTuple", "syntax.StdScope", "syntax.SafeStdScope", "syntax.stdEval",
            "syntax.stdOsSafeAttrs", "syntax.stdOsUnsafeAttrs", "syntax.stdNet", "syntax.stdDeprecated", "syntax.toDecoderTuple",
-           "syntax.stdOsFile", "rel.Closure.CallAll", "rel.Function.Eval", "rel.Call"],
+           "syntax.stdOsFile", "rel.Closure.CallAll", "rel.Function.Eval", "rel.Call", "rel.DynIdentExpr.Eval",
+           "rel.DynIdentPattern.Bind", "rel.IdentExpr.Eval"],
     env={"HARNESS_TIMEOUT_MS": "20000", "GOGC": "400"},
     extra=_extra,
 )
